@@ -40,6 +40,28 @@ def cli_run(argv, so, se):
     return {"rc": rc, "events": list(events)}
 
 
+def cli_run_inproc(argv, so, se):
+    sink = cachelib._SINK["events"]
+    cachelib.audit_to(None)              # the capture files are the observer's, not the run's
+    fo, fe = open(so, "w", encoding="utf-8"), open(se, "w", encoding="utf-8")
+    cachelib.audit_to(sink)
+    old = (sys.stdout, sys.stderr, sys.argv)
+    sys.stdout, sys.stderr, sys.argv = fo, fe, argv
+    try:
+        try:
+            rc = aas_core_codegen.main.main("aas-core-codegen")
+        except SystemExit as e:
+            rc = e.code if isinstance(e.code, int) else 2
+        except BaseException as e:  # noqa
+            rc = f"exc:{type(e).__name__}"
+    finally:
+        cachelib.audit_to(None)
+        sys.stdout, sys.stderr, sys.argv = old
+        fo.close()
+        fe.close()
+    return {"rc": rc}
+
+
 def tree(d):
     out = {}
     base = pathlib.Path(d)
@@ -73,7 +95,10 @@ def main():
             if flag:
                 argv.append("--cache_model")
             so, se = sd / f"stdout{j}.txt", sd / f"stderr{j}.txt"
-            r = cachelib.run_child(lambda: cli_run(argv, str(so), str(se)), tmpdir=tmp)
+            if payload.get("isolation", "fork") == "fork" or i < payload.get("fork_first", 0):
+                r = cachelib.run_child(lambda: cli_run(argv, str(so), str(se)), tmpdir=tmp)
+            else:
+                r = cachelib.run_inproc(lambda: cli_run_inproc(argv, str(so), str(se)), tmp)
             d = r["data"] or {"rc": f"child-exit-{r['exit']}", "events": []}
             d["stdout"] = so.read_text(errors="replace").replace(str(out), "<out>") if so.exists() else ""
             d["stderr"] = se.read_text(errors="replace").replace(str(out), "<out>") if se.exists() else ""
